@@ -141,6 +141,7 @@ func run(t failer, c Case, labels ...string) {
 			surveyMu.Lock()
 			surveyN[v.Class]++
 			n := surveyN[v.Class]
+			surveyN[v.Class+"|"+strings.Join(c.How[:1], "")+"|"+fmt.Sprint(len(c.How) > 1 && strings.Contains(strings.Join(c.How, " "), " perturb"))]++
 			surveyMu.Unlock()
 			vk.R.Class("FAIL " + v.Class)
 			if n <= 3 {
@@ -198,7 +199,10 @@ func TestCorpus(t *testing.T) {
 
 func TestVariants(t *testing.T) {
 	vk.R.Rapid(t, 1, 3000, 80000, func(t *rapid.T) {
-		pol := fmtin.Policy{}
+		// the layout of machine-made junk (xgotext) is only perturbed with blanks: breaking its lines at
+		// arbitrary token boundaries gives an open-ended tail of alignment effects that no closed
+		// catalogue of shapes covers (DESIGN section 3); real sources and typed programs get all of it
+		pol := fmtin.Policy{BlanksOnly: func(origin string) bool { return strings.HasPrefix(origin, "xgotext") }}
 		if os.Getenv("FMT_NOSHARP") != "" {
 			pol.Conv = func(c fmtin.ConvClass) bool { return c.Style != "#" }
 		}
